@@ -1,6 +1,7 @@
 import DaskModel.Lemmas.ArrOverlapLemmas
 import DaskModel.Lemmas.ArrOverlapLocal
 import DaskModel.Lemmas.ArrOverlapBoundary
+import DaskModel.Lemmas.ArrPadsLemmas
 /-!
 # C26 — overlap computations match the unchunked stencil (theorems)
 
@@ -92,6 +93,30 @@ example :
     (trimBlocks false 1 1 ((overlapWithBoundary 1 [5] [1] [[1, 2], [3, 4, 5]]).map (winFn 1 1 g))).flatten
       = [8, 6, 9, 12, 10] := by decide
 example : overlapWithBoundary 1 [5] [1] [[1, 2], [3, 4, 5]] = [[5, 1, 2, 3], [2, 3, 4, 5, 1]] := by decide
+
+/-- **The boundary kinds as index maps, from the code's own slices.** `codeLeft` / `codeRight` are the pads as
+    `periodic`, `reflect`, `nearest`, `constant` build them — Python slices of the axis (`x[-d:]`, `x[0:d]`, `x[d-1::-1]`
+    with the `depth == 1` special case, `x[-1:-d-1:-1]`, `repeat(x[0:1], d)`, `repeat(x[-1:-2:-1], d)`) evaluated with
+    Python's slice semantics (`pySliceIdx`). For every axis length `n` and every depth `1 ≤ d ≤ n` they are the closed-form
+    index maps `padLeft` / `padRight` … -/
+theorem boundary_slices_are_index_maps (k : Kind) (d n : Nat) (h1 : 1 ≤ d) (h2 : d ≤ n) :
+    codeLeft k d n = some ((padLeft k d n).map (Option.map fun (p : Nat) => (p : Int))) ∧
+    codeRight k d n = some ((padRight k d n).map (Option.map fun (p : Nat) => (p : Int))) :=
+  ⟨codeLeft_eq k d n h1 h2, codeRight_eq k d n h1 h2⟩
+
+/-- …and the padded axis `padPositions` (left pad ++ axis ++ right pad) reads, cell by cell, what `np.pad` reads with
+    `mode='wrap'` (periodic: `(i - d) mod n`), `'symmetric'` (reflect: mirrored at the edges, edge cell included),
+    `'edge'` (nearest) and `'constant'` (fill). With `map_overlap_boundary_eq_global` (which holds for ANY pads):
+    `map_overlap(f, x, depth=d, boundary=kind)` = `f` on `np.pad(x, d, mode)` with the pads cut off, on one axis. -/
+theorem boundary_index_maps_eq_np_pad (k : Kind) (d n i : Nat) (h1 : 1 ≤ d) (h2 : d ≤ n) (hi : i < n + 2 * d) :
+    (padPositions k d n)[i]? = some (npPadIndex k d n i) :=
+  padPositions_get k d n i h1 h2 hi
+
+/-- non-vacuity: depth 2 on an axis of 5 -/
+example : codeLeft .reflect 2 5 = some [some 1, some 0] ∧ codeRight .reflect 2 5 = some [some 4, some 3] ∧
+    codeLeft .periodic 2 5 = some [some 3, some 4] ∧ codeRight .nearest 2 5 = some [some 4, some 4] := by decide
+example : (List.range 9).map (npPadIndex .reflect 2 5) = [some 1, some 0, some 0, some 1, some 2, some 3, some 4, some 4, some 3] ∧
+    padPositions .reflect 2 5 = [some 1, some 0, some 0, some 1, some 2, some 3, some 4, some 4, some 3] := by decide
 
 /-- **`sliding_window_view`** (one axis, window `d + 1`): every block is extended by the first `d` cells of its right
     neighbour (`map_overlap(..., depth=(0, d), boundary='none', trim=False)`), NumPy's `sliding_window_view` is applied
